@@ -1,20 +1,21 @@
 CONSTANTS
   Chunk = 2
   Writers = {1}
-  Readers = {1}
+  Readers = {}
   Closers = {1}
   WSizes = {3}
-  RBufs = {2}
-  MSizes = {3}
+  RBufs = {1}
+  MSizes = {1}
   Kinds = {"bin"}
   Codes = {1000}
   MaxW = 1
-  MaxR = 2
-  MaxMsg = 1
+  MaxR = 0
+  MaxMsg = 0
   PipeWriteLock = TRUE
-  C2ClosesPipe = TRUE
-  EnvAtRest = TRUE
+  C2ClosesPipe = FALSE
+  EnvAtRest = FALSE
   History = TRUE
-SPECIFICATION Spec
+SPECIFICATION FairSpec
 INVARIANTS TypeOK
+PROPERTIES NoLeak
 CHECK_DEADLOCK FALSE
